@@ -114,6 +114,7 @@ struct St<F: Flav> {
     fired: usize,
     container: F::Graph,
     in_container: Vec<bool>,
+    ylog: Vec<(K, K, u32)>,
 }
 
 fn resolve(who: Who, src: K, peer: K, root: K, n: usize) -> K {
@@ -314,6 +315,7 @@ fn on_yield<F: Flav>(st: &RefCell<St<F>>, case: &Case, e: &F::Edge, owner_is_dst
             }
         }
         let y = x.yields;
+        x.ylog.push((s, d, ev.id));
         x.yields += 1;
         x.since_last_add += 1;
         y
@@ -329,6 +331,12 @@ fn on_yield<F: Flav>(st: &RefCell<St<F>>, case: &Case, e: &F::Edge, owner_is_dst
 }
 
 pub fn run_case<F: Flav>(case: &Case, rep: &mut Report) -> Vec<String> {
+    run_case_full::<F>(case, rep).0
+}
+
+/// As `run_case`, also returning the sequence of yielded edges and the final adjacency (for the
+/// plain-vs-sync differential of C15).
+pub fn run_case_full<F: Flav>(case: &Case, rep: &mut Report) -> (Vec<String>, Vec<(K, K, u32)>, String) {
     watchdog::beat();
     let mut w = World::<F>::new(case.n);
     let mut m = MModel {
@@ -358,6 +366,7 @@ pub fn run_case<F: Flav>(case: &Case, rep: &mut Report) -> Vec<String> {
         fired: 0,
         container: F::g_new(),
         in_container: vec![false; case.n],
+        ylog: vec![],
     });
     let mut runaway = false;
     let res = catch(|| match case.lp {
@@ -447,7 +456,11 @@ pub fn run_case<F: Flav>(case: &Case, rep: &mut Report) -> Vec<String> {
             }
         }
     }
-    msgs
+    let fin = match observe::<F>(&s.w) {
+        Ok(o) => o.brief(),
+        Err(e) => format!("unobservable: {}", panic_class(&e).replace("sync_", "")),
+    };
+    (msgs, s.ylog, fin)
 }
 
 fn decode(n: usize, ne: usize, mut idx: u64) -> Vec<(K, K)> {
@@ -529,6 +542,23 @@ fn random_script(rng: &mut Rng) -> Vec<SOp> {
     s
 }
 
+pub fn random_case(rng: &mut Rng, directed: bool) -> Case {
+    let loops = all_loops(directed);
+    let n = 2 + rng.below(5);
+    // up to 6n edges: nodes with 8 and more (parallel) edges occur
+    let ne = if rng.chance(1, 2) { rng.below(2 * n + 2) } else { rng.below(6 * n + 1) };
+    let edges: Vec<(K, K)> = (0..ne).map(|_| (rng.below(n) as K, rng.below(n) as K)).collect();
+    Case {
+        n,
+        edges,
+        root: rng.below(n) as K,
+        lp: *rng.pick(&loops),
+        step: if rng.chance(1, 2) { rng.below(5) } else { rng.below(14) },
+        fire_every: rng.chance(1, 2),
+        script: random_script(rng),
+    }
+}
+
 fn report<F: Flav>(rep: &mut Report, c: &Case, msgs: &[String]) {
     let cls: String = msgs[0].chars().filter(|ch| !ch.is_ascii_digit()).take(60).collect();
     let loopname = match c.lp {
@@ -596,18 +626,10 @@ pub fn run<F: Flav>(rep: &mut Report, max_n: usize, max_e: usize, random: u64, s
     }
     rep.count("enumerations_completed");
     for ri in 0..random {
-        let n = 2 + rng.below(5);
-        let ne = rng.below(2 * n + 2);
-        let edges: Vec<(K, K)> = (0..ne).map(|_| (rng.below(n) as K, rng.below(n) as K)).collect();
-        let c = Case {
-            n,
-            edges,
-            root: rng.below(n) as K,
-            lp: *rng.pick(&loops),
-            step: rng.below(5),
-            fire_every: rng.chance(1, 2),
-            script: random_script(rng),
-        };
+        let c = random_case(rng, F::DIRECTED);
+        if c.edges.len() >= 12 {
+            rep.count("random_cases_ge12_edges");
+        }
         rep.count("evaluations");
         rep.count("random_cases");
         rep.distinct(fnv_str(&format!("{}|{:?}|{:?}|{:?}|{}|{}", F::NAME, c.edges, c.lp, c.script, c.root, c.step)));
